@@ -3,8 +3,11 @@ package main
 // cfgq.go: instruction-granular control-flow queries on SSA functions.
 
 import (
+	"fmt"
 	"go/token"
 	"go/types"
+	"sort"
+	"strings"
 
 	"golang.org/x/tools/go/ssa"
 )
@@ -13,19 +16,25 @@ import (
 type Loc struct {
 	B *ssa.BasicBlock
 	I int
+	/* Via, when set, is the block whose edge to B is where the path starts
+	(I is -1 then): what that edge establishes is known on the path. */
+	Via *ssa.BasicBlock
 }
+
+// edgeLoc is the start of the k'th successor of b, entered from b.
+func edgeLoc(b *ssa.BasicBlock, k int) Loc { return Loc{b.Succs[k], -1, b} }
 
 func locOf(i ssa.Instruction) Loc {
 	b := i.Block()
 	for k, x := range b.Instrs {
 		if x == i {
-			return Loc{b, k}
+			return Loc{b, k, nil}
 		}
 	}
-	return Loc{b, -1}
+	return Loc{b, -1, nil}
 }
 
-func entryLoc(fn *ssa.Function) Loc { return Loc{fn.Blocks[0], -1} }
+func entryLoc(fn *ssa.Function) Loc { return Loc{fn.Blocks[0], -1, nil} }
 
 // Edge identifies a CFG edge by block indices.
 type Edge struct{ From, To int }
@@ -41,17 +50,136 @@ type reachQ struct {
 	NoEdges map[Edge]bool
 }
 
-// run returns the first target instruction found, or nil.
-func (q reachQ) run() ssa.Instruction {
-	seen := map[int]bool{}
-	type item struct {
-		b *ssa.BasicBlock
-		i int
+// nilFacts records what a path knows about interface/pointer values:
+// 1 = nil, 2 = not nil.
+type nilFacts map[ssa.Value]int8
+
+func (f nilFacts) with(v ssa.Value, k int8) nilFacts {
+	n := nilFacts{}
+	for a, b := range f {
+		n[a] = b
 	}
-	work := []item{{q.From.B, q.From.I + 1}}
+	n[v] = k
+	return n
+}
+
+func (f nilFacts) key() string {
+	if 0 == len(f) {
+		return ""
+	}
+	var ks []string
+	for v, k := range f {
+		ks = append(ks, fmt.Sprintf("%p:%d", v, k))
+	}
+	sort.Strings(ks)
+	return strings.Join(ks, ",")
+}
+
+// nilnessOf: what is known about v by itself or from the facts.
+func nilnessOf(v ssa.Value, f nilFacts) int8 {
+	if k, ok := f[v]; ok {
+		return k
+	}
+	switch x := v.(type) {
+	case *ssa.Const:
+		if x.IsNil() {
+			return 1
+		}
+	case *ssa.MakeInterface, *ssa.Alloc, *ssa.MakeClosure, *ssa.Function, *ssa.Global, *ssa.FieldAddr, *ssa.IndexAddr, *ssa.MakeMap, *ssa.MakeChan, *ssa.MakeSlice:
+		return 2
+	case *ssa.ChangeInterface:
+		return nilnessOf(x.X, f)
+	case *ssa.Call:
+		switch calleeName(x.Common()) {
+		case "fmt.Errorf", "errors.New":
+			return 2
+		}
+	}
+	return 0
+}
+
+// enterBlock: the facts which hold at the head of b when it is entered from
+// prev: phis take the value of the edge we came over, and whatever b itself
+// defines is a fresh value (b may be in a loop).
+func enterBlock(prev, b *ssa.BasicBlock, in nilFacts) nilFacts {
+	facts := in
+	edge := -1
+	for e, p := range b.Preds {
+		if p == prev {
+			edge = e
+		}
+	}
+	var ks []int8
+	var phis []*ssa.Phi
+	for _, i := range b.Instrs {
+		ph, ok := i.(*ssa.Phi)
+		if !ok {
+			break
+		}
+		k := int8(0)
+		if 0 <= edge && edge < len(ph.Edges) {
+			k = nilnessOf(ph.Edges[edge], in)
+		}
+		phis = append(phis, ph)
+		ks = append(ks, k)
+	}
+	drop := func(v ssa.Value) {
+		if _, had := facts[v]; had {
+			facts = facts.with(v, 0)
+			delete(facts, v)
+		}
+	}
+	for _, i := range b.Instrs {
+		if v, ok := i.(ssa.Value); ok {
+			drop(v)
+		}
+	}
+	for n, ph := range phis {
+		if 0 != ks[n] {
+			facts = facts.with(ph, ks[n])
+		}
+	}
+	return facts
+}
+
+// run returns the first target instruction found, or nil.  Paths are pruned
+// by what they have learnt about nil-ness: after "if err != nil" a later test
+// of the same value (or of a variable it was merged into) is not taken the
+// other way.
+func (q reachQ) run() ssa.Instruction {
+	type item struct {
+		b     *ssa.BasicBlock
+		i     int
+		prev  *ssa.BasicBlock
+		facts nilFacts
+	}
+	seen := map[string]bool{}
+	perBlock := map[int]int{}
+	start := item{q.From.B, q.From.I + 1, nil, nilFacts{}}
+	/* Starting over an edge: what that edge established holds. */
+	via := q.From.Via
+	if nil == via && 0 == start.i && 1 == len(q.From.B.Preds) {
+		via = q.From.B.Preds[0]
+	}
+	if 0 == start.i && nil != via {
+		start.prev = via
+		if ifi := blockIf(via); nil != ifi && via.Succs[0] != via.Succs[1] {
+			if c := decodeCond(ifi.Cond); nil != c.Y && isNilConst(c.Y) {
+				onTrue := via.Succs[0] == q.From.B
+				if c.Eq == onTrue {
+					start.facts = start.facts.with(c.X, 1)
+				} else {
+					start.facts = start.facts.with(c.X, 2)
+				}
+			}
+		}
+		start.facts = enterBlock(via, q.From.B, start.facts)
+	}
+	work := []item{start}
 	for 0 != len(work) {
 		it := work[len(work)-1]
 		work = work[:len(work)-1]
+		facts := it.facts
 		blocked := false
 		for k := it.i; k < len(it.b.Instrs); k++ {
 			in := it.b.Instrs[k]
@@ -71,15 +199,50 @@ func (q reachQ) run() ssa.Instruction {
 		if blocked {
 			continue
 		}
-		for _, s := range it.b.Succs {
-			if q.NoEdges[Edge{it.b.Index, s.Index}] {
+		/* Which ways out are consistent with what the path knows? */
+		var outs []item
+		ifi := blockIf(it.b)
+		decided := false
+		if nil != ifi && 2 == len(it.b.Succs) && it.b.Succs[0] != it.b.Succs[1] {
+			if c := decodeCond(ifi.Cond); nil != c.Y && isNilConst(c.Y) {
+				nilSucc := 1
+				if c.Eq {
+					nilSucc = 0
+				}
+				switch nilnessOf(c.X, facts) {
+				case 1:
+					outs = append(outs, item{it.b.Succs[nilSucc], 0, it.b, facts})
+					decided = true
+				case 2:
+					outs = append(outs, item{it.b.Succs[1-nilSucc], 0, it.b, facts})
+					decided = true
+				default:
+					outs = append(outs, item{it.b.Succs[nilSucc], 0, it.b, facts.with(c.X, 1)}, item{it.b.Succs[1-nilSucc], 0, it.b, facts.with(c.X, 2)})
+					decided = true
+				}
+			}
+		}
+		if !decided {
+			for _, s := range it.b.Succs {
+				outs = append(outs, item{s, 0, it.b, facts})
+			}
+		}
+		for _, o := range outs {
+			if q.NoEdges[Edge{it.b.Index, o.b.Index}] {
 				continue
 			}
-			if seen[s.Index] {
+			o.facts = enterBlock(it.b, o.b, o.facts)
+			/* Bound the number of distinct fact sets per block. */
+			if perBlock[o.b.Index] >= 12 {
+				o.facts = nilFacts{}
+			}
+			key := fmt.Sprintf("%d|%s", o.b.Index, o.facts.key())
+			if seen[key] {
 				continue
 			}
-			seen[s.Index] = true
-			work = append(work, item{s, 0})
+			seen[key] = true
+			perBlock[o.b.Index]++
+			work = append(work, o)
 		}
 	}
 	return nil
